@@ -299,8 +299,8 @@ def legacy_detection_over_gathered_bytes(prog, res):
     res.check(bool(over_stash), R, "detection-reads-headerBuffer", f.loc, "%d of %d ZSTD_isLegacy calls look at the gathered bytes" % (len(over_stash), len(det)),
               "ZSTD_decompressStream only looks for a legacy magic number at the start of the caller's current input: a v0.5-v0.7 frame whose first call carries 1 to 4 "
               "bytes is refused (prefix_unknown) although the same frame decodes when the first call carries 5 bytes")
-    feeds = [(b, i, c) for b, i, c in f.calls("ZSTD_decompressLegacyStream")]
-    from_input = [(b, i) for b, i, c in feeds if strip_casts(f.resolve_x(c["a"][3])) is not None and strip_casts(f.resolve_x(c["a"][3])).get("rk") == "p"]
+    feeds = [(b, i, c) for b, i, c in f.calls(("ZSTD_decompressLegacyStream", "ZSTD_decompressLegacyStream_counted"))]     # the input is the last argument of both
+    from_input = [(b, i) for b, i, c in feeds if strip_casts(f.resolve_x(c["a"][-1])) is not None and strip_casts(f.resolve_x(c["a"][-1])).get("rk") == "p"]
     from_stash = [(b, i) for b, i, c in feeds if (b, i) not in from_input]
     gathered = guards.truthy_edges(f, lambda c: c.get("k") == "mem" and c.get("f") == "lhSize", truth=True) + \
         guards.rel_edges(f, lambda a: any(y.get("k") == "mem" and y.get("f") == "lhSize" for y in f.walk_resolved(a)), ">", lambda b_: const_val(strip_casts(b_)) == 0, truth=True)
